@@ -33,6 +33,8 @@ PROPS = {
                 preds=["EnvPrecedence", "CalledExact", "UntouchedKeepDefault"]),
     "C17": dict(families=["complete"], lens={"comps", "exits", "ran", "writer"}, rand=("C17", 6000, 150000),
                 preds=["CandidatesExact", "OfferedAccepted"]),
+    "C18": dict(families=["helpdoc"], lens={"help", "helpcomplete", "helpof"}, rand=("C18", 2500, 60000), relational=False,
+                preds=["HelpDocComplete (evaluated on the parsed real text)", "HelpDocOf equality", "three paths same text"]),
     "C19": dict(families=["modes", "wrapper"], lens={"panic", "hang", "rest", "exits"}, fuzz=(16000, 800000), level="exploration",
                 preds=["NotStuck", "VariantDecreases (action property)", "ErrImpliesNilRest"]),
     "C20": dict(families=["order", "complete"], lens={"nondet", "err", "derr", "comps", "warn"}, rand=[("C20", 4000, 100000), ("C20c", 2000, 50000)],
@@ -67,6 +69,7 @@ MANIFEST_TEXT.update({
     "C11": _mt("DESIGN.md 5 C11", "RequiredEnforced checked by TLC with required options at every level x custom messages x env binding x help by option, alias, abbreviation and help command; real Parse/Dispatch errors (errors.Is(ErrorParsing), custom message), help level and executed functions validated; which of several missing options is named is left open here (C20 fixes the rule)."),
     "C17": _mt("DESIGN.md 5 C17", "GetoptComp.tla mirrors the completion branch (earlier words parsed with the ordinary parser steps in the configured mode, candidates generated at the level reached); TLC checks CandidatesExact (the operational candidate list equals the declarative definition written from the property statement) and OfferedAccepted on every COMP_LINE up to the bound x bash/zsh; the real completion output (bag of candidates, sortedness, exactly one exit with 124, no command function run, nothing on Writer) is validated for every such line and random ones."),
     "C20": _mt("DESIGN.md 5 C20", "In the specification every outcome is a function of (definition, input): the only place where the code consults an unordered table to choose a diagnostic (missing required option) is modelled with an explicit rule (first missing name in the level's sorted name list, FixedRule); TLC validates the exact diagnostic, and every case is executed 7 times in one process (Go re-randomises map iteration per range) and again in a fresh process, with a hash over every observable (values, remaining, full error text, Writer text incl. help, completion output) required to be identical."),
+    "C18": _mt("DESIGN.md 5 C18", "GetoptHelp.tla defines the help document of a command level (synopsis items, required / option lists with aliases, defaults, environment variables, command list, footer); the real text printed through Help(), the help option and the help command is parsed back into that structure, TLC checks (a) equality with the specified document, (b) the property statement HelpDocComplete directly on the parsed text (every option of the level exactly once in exactly one list with all aliases, required iff required, default iff not required, env iff bound; every sub-command except help exactly once), (c) the three paths give the same text; over all 12 kinds x alias counts x required x env x multi-line descriptions x levels and random definitions. The spec side of (a) is close to definitional: the weight is on the enumeration and the parse-back."),
     "C19": dict(_mt("DESIGN.md 5 C19", "Spec side: totality (NotStuck: the case analysis of the loop has no hole), termination (every step decreases a lexicographic variant, an action property) and ErrImpliesNilRest are checked by TLC on every family. Code side is observational, hence the level: a byte-level driver (raw random bytes as tokens, COMP_LINE words and environment values, 1000-4000 byte tokens, bundles of up to 1200 letters, int ranges at the int64 boundaries with spans <= 10^4) runs Parse / Dispatch / completion under recover and a 3 s watchdog and checks no panic, no hang, nil remaining on error and exactly one exit on the completion path; the cases representable as atoms are additionally validated against the specification."), level="exploration"),
     "C12": _mt("DESIGN.md 5 C12", "EnvPrecedence with the definition-time environment step modelled before any command-line step, checked by TLC for every supported kind x env text class x CLI spelling; real values, Called and CalledAs validated."),
 })
